@@ -8,6 +8,8 @@ from .values import *  # noqa
 from .core import *  # noqa
 from .core import _NOCONST
 from . import frontend
+from . import dyn as D
+from .dyn import VDyn, TDyn
 
 MUTATORS = {"append", "appendleft", "pop", "popleft", "add", "update", "clear", "remove", "setdefault",
             "extend", "insert", "discard", "move_to_end", "popitem", "sort", "reverse"}
@@ -32,6 +34,7 @@ class Interp:
         self.assume_mode = False
         self.polarity = True
         self.q_ctx = []
+        D.CURRENT_I = self
         from . import jsonmodel
         jsonmodel.CUR[0] = path    # ground axiom instances of Json injections go to this path
 
@@ -58,6 +61,10 @@ class Interp:
             return t.fresh(self, hint)
         if isinstance(t, TUn):
             return t.wrap(p.fresh(hint, t.sort()))
+        if t is TDyn:
+            v = VDyn(p.fresh(hint, t.sort()))
+            D.wf(self, v.e)
+            return v
         if isinstance(t, TOpt):
             v = VOpt(p.fresh(hint, t.sort()), t)
             self._assume_wf_expr(v.t.dt.val(v.e), t.inner, guard=z3.Not(v.is_none()))
@@ -65,7 +72,10 @@ class Interp:
         if isinstance(t, TTuple):
             return VTuple([self.fresh_value(et, "%s_%d" % (hint, i)) for i, et in enumerate(t.elems)], t)
         if isinstance(t, TRec):
-            return VRec({fn: self.fresh_value(ft, "%s_%s" % (hint, fn)) for fn, ft in t.fields.items()}, t)
+            r = VRec({fn: self.fresh_value(ft, "%s_%s" % (hint, fn)) for fn, ft in t.fields.items()}, t)
+            if getattr(t, "variants", None) is not None:
+                p.assume(z3.Or([r.fields["_cls"].e == z3.StringVal(c) for c in t.variants]))
+            return r
         if isinstance(t, TMutRec):
             e = p.fresh(hint, t.sort())
             for fn, ft in t.fields.items():
@@ -147,6 +157,10 @@ class Interp:
 
     def _assume_wf_seq(self, v):
         et = v.et
+        if isinstance(et, TRec) and getattr(et, "variants", None) is not None:
+            i = z3.Int("wf_i")
+            tag = et.acc("_cls", z3.Select(v.arr, i))
+            self.path.assume(z3.ForAll([i], z3.Or([tag == z3.StringVal(c) for c in et.variants]), patterns=[z3.Select(v.arr, i)]))
         if isinstance(et, (TList, TMap, TSet)):
             i = z3.Int("wf_i")
             sub = z3.Select(v.arr, i)
@@ -300,6 +314,10 @@ class Interp:
             if self.path.branch(v.present):
                 return v.obj
             return VNone()
+        if isinstance(v, VDyn):
+            if self.spec:
+                raise Unsupported("force a Dyn value in spec mode")
+            return D.view(self, v)
         return v
 
     def truth(self, v):
@@ -315,6 +333,9 @@ class Interp:
             return z3.Length(v.e) > 0
         if isinstance(v, VNone):
             return z3.BoolVal(False)
+        if isinstance(v, VDyn):
+            D.wf(self, v.e)
+            return D.truth(v)
         if isinstance(v, VOpt):
             return z3.And(z3.Not(v.is_none()), self.truth(v.val()))
         if isinstance(v, VSeq):
@@ -323,6 +344,8 @@ class Interp:
             return v.card > 0
         if isinstance(v, VTuple):
             return z3.BoolVal(len(v.items) > 0)
+        if isinstance(v, (VEmptyList, VEmptySet)):
+            return z3.BoolVal(False)
         if isinstance(v, VDictRec):
             return z3.BoolVal(len(v.fields) > 0)
         if isinstance(v, VDRec):
@@ -380,6 +403,8 @@ class Interp:
             return z3.BoolVal(False)          # nan != everything, itself included
         if a is b and not isinstance(a, (VReal,)):
             return z3.BoolVal(True)
+        if isinstance(a, VDyn) or isinstance(b, VDyn):
+            return D.py_eq(self, a, b)
         if _is_j(a) or _is_j(b):
             from . import jsontree
             return jsontree.eq(self, a, b)
@@ -442,6 +467,18 @@ class Interp:
         if isinstance(a, VRec) and isinstance(b, VRec):
             if a.t.nm != b.t.nm:
                 return z3.BoolVal(False)
+            vs = getattr(a.t, "variants", None)
+            if vs is not None:
+                # dataclass equality inside a tagged union: same class, equal fields of that class
+                tag = a.fields["_cls"].e
+                cs = [tag == b.fields["_cls"].e]
+                for f in a.t.fields:
+                    if f == "_cls":
+                        continue
+                    owners = [c for c, fs in vs.items() if f in fs]
+                    cs.append(z3.Implies(z3.Or([tag == z3.StringVal(c) for c in owners] + [z3.BoolVal(False)]),
+                                         self.eq(a.fields[f], b.fields[f])))
+                return z3.And(cs)
             return z3.And([self.eq(a.fields[f], b.fields[f]) for f in a.t.fields] + [z3.BoolVal(True)])
         if isinstance(a, VEmptyList) or isinstance(b, VEmptyList):
             o = b if isinstance(a, VEmptyList) else a
@@ -485,8 +522,10 @@ class Interp:
                 a = a.val()
             if isinstance(b, VOpt):
                 b = b.val()
-        elif isinstance(a, VOpt) or isinstance(b, VOpt):
+        elif isinstance(a, (VOpt, VDyn)) or isinstance(b, (VOpt, VDyn)):
             a, b = self.force(a), self.force(b)
+        if self.spec and (isinstance(a, VDyn) or isinstance(b, VDyn)):
+            return D.py_lt(self, a, b, strict)
         if (isinstance(a, VNaN) and (is_num(b) or isinstance(b, VNaN))) or (isinstance(b, VNaN) and is_num(a)):
             return z3.BoolVal(False)          # every ordering comparison with nan is False
         if isinstance(a, VNone) or isinstance(b, VNone):
@@ -644,10 +683,17 @@ class Interp:
         return VSeq(arr, z3.IntVal(len(items)), et, kind)
 
     def encodable(self, v):
+        if isinstance(v, VDictRec):
+            try:
+                return VDyn(D.to_dyn(v))
+            except TypeError:
+                return v
         return v
 
     def join_types(self, ts):
         t0 = ts[0]
+        if any(t is TDyn for t in ts):
+            return TDyn
         for t in ts[1:]:
             if t == t0:
                 continue
@@ -802,6 +848,7 @@ class Interp:
     def ev_BoolOp(self, n, env):
         if self.spec:
             vals = [self.ev(v, env) for v in n.values]
+            vals = [VBool(self.undef_bool()) if isinstance(v, VUndef) else v for v in vals]
             if all(isinstance(v, VBool) for v in vals):
                 es = [v.e for v in vals]
                 return VBool(z3.And(es) if isinstance(n.op, ast.And) else z3.Or(es))
@@ -817,6 +864,13 @@ class Interp:
             last = self.ev(sub, env)
             if i == len(n.values) - 1:
                 return last
+            if isinstance(last, VDyn) and isinstance(n.op, ast.Or) and i == len(n.values) - 2 and not self.ver.no_if_conversion:
+                nxt = n.values[i + 1]
+                if (isinstance(nxt, ast.Dict) and not nxt.keys) or (isinstance(nxt, ast.List) and not nxt.elts) or \
+                        (isinstance(nxt, ast.Constant) and isinstance(nxt.value, (int, float, str, bool, type(None)))):
+                    # `x or {}` / `x or []` / `x or 0`: the default is a side-effect free literal; merge instead of forking
+                    D.wf(self, last.e)
+                    return VDyn(z3.If(D.truth(last), last.e, D.to_dyn(self.ev(nxt, env))))
             if isinstance(n.op, ast.Or) and i == len(n.values) - 2 and isinstance(n.values[-1], ast.Constant) \
                     and isinstance(n.values[-1].value, str) and isinstance(last, VStr):
                 # `s or "<literal>"` on a string: value-level (no path fork); the literal has no side effect and a
@@ -877,6 +931,15 @@ class Interp:
         c = self.ev(n.test, env)
         if self.spec:
             return self.ite(self.truth(c), self.ev(n.body, env), self.ev(n.orelse, env))
+        if isinstance(c, VBool) and not self.ver.no_if_conversion and self._simple_expr(n.body) and self._simple_expr(n.orelse):
+            # `a if c else b` with side-effect free scalar arms: a value-level if-then-else instead of a fork
+            try:
+                tv, fv = self.ev(n.body, env), self.ev(n.orelse, env)
+                scal = (VInt, VReal, VBool, VStr)
+                if isinstance(tv, scal) and isinstance(fv, scal):
+                    return self.ite(c.e, tv, fv)
+            except (Unsupported, TypeError, PyRaise):
+                pass
         if self.test(c):
             return self.ev(n.body, env)
         return self.ev(n.orelse, env)
@@ -924,6 +987,9 @@ class Interp:
     def is_(self, a, b_):
         if isinstance(a, VNone) or isinstance(b_, VNone):
             return self.eq(a, b_)
+        if isinstance(a, VDyn) or isinstance(b_, VDyn) or isinstance(getattr(a, "origin", None) and a.origin[0], D._Frozen) \
+                or isinstance(getattr(b_, "origin", None) and b_.origin[0], D._Frozen):
+            raise Unsupported("'is' on Dyn values (object identity of JSON-like values is not modelled)")
         if not self.spec and (isinstance(a, VOpt) or isinstance(b_, VOpt)):
             a, b_ = self.force(a), self.force(b_)
             if isinstance(a, VNone) or isinstance(b_, VNone):
@@ -1727,7 +1793,7 @@ class Interp:
             return self.coerce_value(v, lt)
         if isinstance(v, VEmptySet) and isinstance(lt, TSet):
             return self.empty_set(lt)
-        if isinstance(lt, (TOpt,)) or lt is TReal:
+        if isinstance(lt, (TOpt,)) or lt is TReal or lt is TDyn:
             try:
                 return lt.wrap(unwrap(v, lt))
             except TypeError:
@@ -1813,6 +1879,11 @@ class Interp:
         """shape a returned value after the declared return type (typed empties, optionals)"""
         if isinstance(t, TTuple) and isinstance(v, VTuple) and len(v.items) == len(t.elems):
             return VTuple([self.coerce_value(x, et) for x, et in zip(v.items, t.elems)])
+        if t is TDyn and not isinstance(v, VDyn):
+            try:
+                return VDyn(D.to_dyn(v))
+            except TypeError:
+                return v
         if isinstance(v, VEmptyList) and isinstance(t, TList):
             return VSeq(z3.K(z3.IntSort(), self.default_of(t.elem)), z3.IntVal(0), t.elem, t.kind)
         if isinstance(v, VEmptySet) and isinstance(t, TSet):
@@ -1922,8 +1993,93 @@ class Interp:
             return body[0].targets[0].id, body[0].value
         return None
 
+    # -- if / elif / ... / else chains that only assign one local (no fork): `intent = ...` style policy tables
+    def _chain_test_ok(self, e):
+        if isinstance(e, ast.Name):
+            return True
+        if isinstance(e, ast.UnaryOp) and isinstance(e.op, ast.Not):
+            return self._chain_test_ok(e.operand)
+        if isinstance(e, ast.Compare) and len(e.ops) == 1 and \
+                isinstance(e.ops[0], (ast.Lt, ast.LtE, ast.Gt, ast.GtE, ast.Eq, ast.NotEq)):
+            return self._simple_expr(e.left) and self._simple_expr(e.comparators[0])
+        return False
+
+    def _chain_value_ok(self, e):
+        if isinstance(e, ast.IfExp):
+            return self._chain_test_ok(e.test) and self._chain_value_ok(e.body) and self._chain_value_ok(e.orelse)
+        return self._simple_expr(e)
+
+    def _if_chain(self, s, name=None):
+        """-> (name, [(test|None, value expr)...]) for `if t1: x = e1 elif t2: x = e2 ... else: x = en`, else None"""
+        if len(s.body) != 1 or not isinstance(s.body[0], ast.Assign) or len(s.body[0].targets) != 1 or \
+                not isinstance(s.body[0].targets[0], ast.Name) or not self._chain_value_ok(s.body[0].value):
+            return None
+        if not self._chain_test_ok(s.test):
+            return None
+        nm = s.body[0].targets[0].id
+        if name is not None and nm != name:
+            return None
+        if len(s.orelse) == 1 and isinstance(s.orelse[0], ast.If):
+            rest = self._if_chain(s.orelse[0], nm)
+            if rest is None:
+                return None
+            return nm, [(s.test, s.body[0].value)] + rest[1]
+        if len(s.orelse) == 1 and isinstance(s.orelse[0], ast.Assign) and len(s.orelse[0].targets) == 1 and \
+                isinstance(s.orelse[0].targets[0], ast.Name) and s.orelse[0].targets[0].id == nm and \
+                self._chain_value_ok(s.orelse[0].value):
+            return nm, [(s.test, s.body[0].value), (None, s.orelse[0].value)]
+        return None
+
+    def _chain_cond(self, e, env):
+        """truth of a chain test as a z3 Bool without forking; Unsupported when an operand would need forcing"""
+        if isinstance(e, ast.UnaryOp):
+            return z3.Not(self._chain_cond(e.operand, env))
+        if isinstance(e, ast.Name):
+            v = self.ev(e, env)
+            if isinstance(v, (VOptObj, VObj, VUndef)):
+                raise Unsupported("chain test")
+            return self.truth(v)
+        a, b = self.ev(e.left, env), self.ev(e.comparators[0], env)
+        scal = (VInt, VReal, VBool, VStr)
+        if not (isinstance(a, scal) and isinstance(b, scal)):
+            raise Unsupported("chain test operands")
+        if isinstance(e.ops[0], (ast.Lt, ast.LtE, ast.Gt, ast.GtE)) and (isinstance(a, VStr) != isinstance(b, VStr)):
+            raise Unsupported("chain test operands")
+        return self.compare(e.ops[0], a, b)
+
+    def _chain_value(self, e, env):
+        if isinstance(e, ast.IfExp):
+            return self.ite(self._chain_cond(e.test, env), self._chain_value(e.body, env), self._chain_value(e.orelse, env))
+        v = self.ev(e, env)
+        if not isinstance(v, (VInt, VReal, VBool, VStr)):
+            raise Unsupported("chain value")
+        return v
+
+    def try_chain_conversion(self, s, env):
+        ch = self._if_chain(s)
+        if ch is None or (len(ch[1]) <= 2 and not any(isinstance(v, ast.IfExp) for _, v in ch[1])):
+            return False
+        name, arms = ch
+        try:
+            cur = self._chain_value(arms[-1][1], env)
+            for t, v in reversed(arms[:-1]):
+                cur = self.ite(self._chain_cond(t, env), self._chain_value(v, env), cur)
+        except (Unsupported, TypeError, PyRaise):
+            return False        # nothing was executed: Names / constants / comparisons of scalars are pure
+        self.assign(ast.Name(id=name, ctx=ast.Store()), cur, env)
+
+        def cover(st):
+            for x in st.body + st.orelse:
+                self.ver.cover(x)
+                if isinstance(x, ast.If):
+                    cover(x)
+        cover(s)
+        return True
+
     def try_if_conversion(self, s, env):
         cv = None
+        if s.orelse and self.try_chain_conversion(s, env):
+            return True
         # pattern A: if c: x = e   [else: x = e2]
         a = self._simple_assign(s.body)
         b = self._simple_assign(s.orelse) if s.orelse else None
